@@ -134,7 +134,7 @@ def verdict(method, acct):
     return _template(acct, ref)[2]
 
 
-def probes(method, seed=0, n_random=60):
+def probes(method, seed=0, n_random=60, pairs=False):
     """Account numbers covering every position x digit (each made reference-valid where possible), boundaries of the
     special rules, and seeded random fills: list of (account, reference verdict)."""
     import random
@@ -192,5 +192,16 @@ def probes(method, seed=0, n_random=60):
         v = valid_variant(a)
         if v:
             add(v)
+    if pairs:
+        # every pair of positions varied jointly over all digit values (thorough tier), each also made reference-valid where possible
+        for i in range(10):
+            for j in range(i + 1, 10):
+                for d1 in "0123456789":
+                    for d2 in "0123456789":
+                        a = base[:i] + d1 + base[i + 1:j] + d2 + base[j + 1:]
+                        add(a)
+                        v = valid_variant(a)
+                        if v:
+                            add(v)
     items = list(out.items())
     return items[:n_boundary], items[n_boundary:]
